@@ -73,6 +73,96 @@ ENTRIES = {
              "Index validity is a hypothesis: the sentinel -1 is itself invalid on an embedding with 0 rows. Treatment and sample ids are taken "
              "from the real Screen (C01's subject). Every run repeats three mutation self-tests (missing zeroing, zeroing the wrong rows, zeroing "
              "the parameter instead of a copy)."),
+    "C02": dict(
+        text="Theorems: for EVERY screen returned by the constructor model (any flags, built or supplied mappings incl. strict supersets in any "
+             "order, 0 rows included) load(save s) = Ok s on the whole record (names, dose keys, observation bits, mask, control name, all ids, "
+             "both mappings in stored order); ids/mappings never change; save after load after save = save; any number of cycles; same for "
+             "ExperimentSpace; exact characterisation of load(save s) as the constructor call load_h5 makes. Tied to the code by differential "
+             "correspondence and a field-by-field bit-level predicate through real h5py files (1-3 cycles, non-ASCII/empty names, NaN payloads, "
+             "raw dose bits, dtypes), with the two formerly failing 0-row witnesses as corpus cases.",
+        note="Trusted: Coq kernel, extraction, driver, harness. h5py is modelled as the identity on arrays and the string codec as the identity "
+             "on arrays of any shape (exercised by every case). Doses are order keys in the model (raw bits checked on the implementation). "
+             "The 0-row defect found here was repaired in /repo (fix: 81a412f); model and theorems describe the repaired code."),
+    "C04": dict(
+        text="Theorems (all row lists, every logit / float32 cast): training data of SparseDrugCombo and SparseDrugComboInteraction and the "
+             "projection handed to distance / scoring / selection are equal for screens differing only in masked values (also over the shared "
+             "Screen constructor model); SparseDrugCombo trains on exactly the observed rows once, in order, with logit(clip(float32 y, .01, .99)) "
+             "(bounds re-read from /repo on every run); add_observations refuses masked rows; both models refuse negative / NaN; the interaction "
+             "model trains on exactly the observed rows without a control id and builds its single-effect table from observed rows only. The "
+             "pre-repair logic is kept as model switches and refuted with three vm_compute witnesses. Tied to the code by relational cases "
+             "through the real Screen, both models, seeded sampler, all distance / score chunks, select_next_plate and train_model.main, two runs "
+             "compared bit for bit and with the extracted model.",
+        note="Trusted: Coq kernel, extraction, driver, harness; the float32 cast is data; downstream numerics are compared implementation-side "
+             "only with a `.observations` read tripwire; fast_mvn's unseeded generator is replaced by a seeded one (C18's subject). The three "
+             "interaction-model defects found here were repaired in /repo (fix: 49949ee); the harness probes which switch setting the code implements."),
+    "C05": dict(
+        text="Theorems (every ln/exp oracle, all n_thetas, all plate lists incl. size-0/1 plates and a single plate, all means/variances/"
+             "matrices/distance_factor): the vectorised kernel on 0/NaN-padded arrays (and on ANY representation of the plates) equals the direct "
+             "unpadded one-plate double loop per plate; the scorer (any max_chunk, array_split sub-groups, one draw per group) pairs every key "
+             "with the direct estimator of its own plate; scores are invariant under triple order, experiment permutation, and consistent "
+             "relabelling of samples with a symmetric matrix when all triples are enumerated; homoscedastic = heteroscedastic; score = -inf iff "
+             "all enumerated triples have zero distance; checks pass on well-formed input. Tied to the code by running the extracted model "
+             "against the three dbal_fast_* entry points and GaussianDBALScorer.score (real Screen plates, real predict_*_all, "
+             "ChunkedDistanceMatrix) on the same recorded rng.choice draws; pred compares the implementation with an independent Python loop and "
+             "checks the invariances directly.",
+        note="Trusted: Coq kernel, extraction, OCaml driver with libm oracles, harness; numpy broadcasting/fancy indexing rendered pointwise; "
+             "scipy 1.17.1 logsumexp algorithm modelled; unranking is Model/Unrank.v (C15); tolerance 1e-9*max(1,|score|), -inf exact; "
+             "distance_factor>0, variances>0 in generated cases; four in-memory mutants re-run as self-tests on every check."),
+    "C06": dict(
+        text="Theorems (all screens as row lists, all observation patterns incl. partly observed plates, all batches with at least one known id "
+             "or empty, all n_chunks >= 1 incl. more chunks than plates, any scorer function, any score keys incl. -inf and ties, any combine "
+             "order containing every chunk index incl. repeats, any policy returning only candidates, or none): the plate ids handed to the "
+             "scorer over all chunk indices are exactly the unobserved plates not in the batch, each once, ascending; with a batch each candidate "
+             "is scored on the first-occurrence-unique (by sample, treatments; screen storage order) union of its own and the batch plates' rows; "
+             "after save/load/concat the selected plate is a candidate, allowed, of minimal score among allowed plates, ties resolved as numpy "
+             "argmin; None iff nothing is allowed. Tied to the code by running the extracted model and the real Screen / score_chunk / "
+             "ChunkedScoresHolder save_h5-load_h5-concat / select_next_plate / both CLI main()s on the same generated cases.",
+        note="Trusted: Coq kernel, extraction, OCaml driver, Python harness. numpy/h5py storage is modelled (identity round trip; "
+             "zero-initialised slots modelled explicitly). The scorer is a function returning one score per handed plate (DBAL scorer is C05); "
+             "KPerSamplePlatePolicy is replayed as data (C16). A non-empty batch with no id in the screen makes the code raise (stated as a "
+             "theorem). An under-filling scorer leaves a phantom (plate 0, score 0.0) slot (Example, outside the quantifier). NaN scores excluded."),
+    "C14": dict(
+        text="Theorems (all screens, all boolean selections, all duplicate patterns, all finite op trees): view attributes are the parent's "
+             "values at the selected rows in order; subset composes selections, combine and concat are union, invert is complement; observed and "
+             "unobserved views split the screen by its mask (None iff empty), plates partition the rows; to_screen keeps the rows and never "
+             "fails on constructor-built parents; the unique filter keeps exactly the first row per (sample id, treatment ids) key; views of "
+             "different parents are refused; by induction on the op tree, every evaluated composition selects exactly the index-set reference "
+             "semantics. Tied to the code by running the extracted model and the real ScreenSubset / Plate / Screen API on the same random trees.",
+        note="Trusted: Coq kernel, extraction, driver, harness. numpy boolean indexing, np.where, fancy assignment and np.unique(return_index) "
+             "first-occurrence behaviour are modelled by their documented effect and exercised on every case. Parent identity is a tag. Mutation "
+             "and aliasing are checked only at run time by pred. to_screen may renumber ids; rows are what is promised. single_treatment_effects, "
+             "Plate.merge, plate_id, plate_name are not modelled."),
+    "C18": dict(
+        category="other",
+        text="Level other. Coq (closed): in the resumption-tree model of a randomised step the output and the sequence of draw requests are a "
+             "function of the program and the consumed answers only; execution against any generator state machine is replay of its answers; a "
+             "step drawing only through its own generator neither reads nor changes an unrelated global generator state, also across two runs with "
+             "arbitrary global activity in between; refuted for a step served from the global state. Tied to the code by trace conformance of "
+             "RandomScorer, both hold-out splits and DBAL sub-sampling (recorded requests and output = extracted model replayed on the recorded "
+             "answers, answers checked against the numpy contract). Defects are detected by the runtime part: every randomised operation and the "
+             "four --seed CLIs are run twice with identically seeded generators under differently seeded global generators; outputs, request "
+             "traces and global generator states are compared, and every numpy.random.<function> / argument-less default_rng() is trapped with its "
+             "batchie call site.",
+        note="Absence of hidden state in the implementation is checked at run time on generated inputs, not proved (a pure model cannot exhibit "
+             "hidden state). Trusted: Coq kernel, extraction, driver, mock patching + stack attribution, RecordingGenerator (self-tested same "
+             "stream). Randomness bypassing numpy.random / python random is visible only through differing outputs. Known findings on the current "
+             "tree (KNOWN_FINDINGS.json): the legacy Gibbs samplers draw from np.random.* and an unseeded default_rng() (call sites enumerated; "
+             "any other site is reported). The calculate_scores --seed defect was repaired (fix: 9b38441).",
+        technique="Coq proof that a resumption-tree model of randomised steps is explicit in its answer stream + trace conformance of the real "
+                  "operations to it + runtime trapping of global/unseeded generators"),
+    "C20": dict(
+        text="Theorems (all shapes, exact rationals): ModelEvaluation mse / mse_variance (across experiments, ddof 0) / inter_chain (distinct "
+             "chain ids, unequal lengths) / mean_predictions / save-load (every constructible evaluation), calculate_mse, the single-effect dict "
+             "and array (mean of that sample's single-agent observations, 1 for control, any column, arity >= 2), Bliss synergy (product - "
+             "observation, skip or strict refuse), itertools.combinations = every position subset once, space ids = the screen's mapping ids, "
+             "correlation matrix symmetric / unit diagonal where defined / index-wise definition over the full space: each transcribed numpy "
+             "expression equals its loop definition; the literal 'unit diagonal' clause is refuted for a single sample (NaN), as coded. Tied to the "
+             "code by 700+ generated cases per run through the real functions, the real Screen and real h5 files.",
+        note="Trusted: Coq kernel, extraction, OCaml driver, harness; floats modelled as rationals (tolerance 1e-9), sqrt as oracle (unit diagonal "
+             "under sqrt(S_i)^2 = S_i pointwise), h5py/string codec identity, pandas merge = keyed lookup, thetas stubbed as row-wise functions; "
+             "entries that are 0/0 over the reals are not compared; correlation_matrix centres on the across-sample mean, so one sample gives NaN "
+             "(documented by a refuted theorem, not counted as a violation: the property's 'unit diagonal' presupposes a defined correlation). The "
+             "0-experiment reload defect found here was repaired in /repo (fix: 6d95451)."),
 }
 PENDING = "check not built yet in this round; planned in DESIGN.md section 5 (no property is inapplicable in principle)"
 NOT_APPLICABLE = {p: PENDING for p in ["C%02d" % i for i in range(1, 21)] if p not in ENTRIES}
